@@ -210,6 +210,149 @@ func timeOrderHook(vals map[ssa.Value]int64) feHook {
 	}
 }
 
+// deleteFuncRetention decides the retention table when the per-point loop is the standard
+// library's slices.DeleteFunc: every element is examined by contract, and a point is retained
+// iff the predicate returns false. Reports whether that form was found (and decided).
+func deleteFuncRetention(r *Run, oc *Obligation, cw *ssa.Function, admittedAtStart bool) bool {
+	grp := funcGroup(cw)
+	var del *ssa.Call
+	var pred *ssa.Function
+	for _, g := range grp {
+		for _, c := range callsIn(g) {
+			call, ok := c.(*ssa.Call)
+			if !ok {
+				continue
+			}
+			callee := staticCallee(call)
+			if callee == nil || len(call.Call.Args) != 2 {
+				continue
+			}
+			o := callee
+			if o.Origin() != nil {
+				o = o.Origin()
+			}
+			if o.Pkg == nil || o.Pkg.Pkg.Path() != "slices" || o.Name() != "DeleteFunc" {
+				continue
+			}
+			switch f := stripTypeOnly(call.Call.Args[1]).(type) {
+			case *ssa.MakeClosure:
+				pred, _ = f.Fn.(*ssa.Function)
+			case *ssa.Function:
+				pred = f
+			}
+			del = call
+		}
+	}
+	if del == nil || pred == nil || pred.Blocks == nil {
+		return false
+	}
+	var tVal *ssa.Call
+	for _, c := range callsIn(pred) {
+		call, ok := c.(*ssa.Call)
+		if !ok {
+			continue
+		}
+		if callee := staticCallee(call); callee != nil && cname(callee) == "AsTime" {
+			if fl, base, ok := loadOfField(call.Call.Args[0]); ok && fl == "Timestamp" && (originValue(base) == ssa.Value(pred.Params[0]) || originCell(base, 0) == ssa.Value(pred.Params[0])) {
+				tVal = call
+			}
+		}
+	}
+	if tVal == nil {
+		oc.Fail(r.pos(pred.Pos()), "the filter predicate does not examine the point's timestamp")
+		return true
+	}
+	var wsRaw ssa.Value
+	for _, c := range callsIn(pred) {
+		call, ok := c.(*ssa.Call)
+		if !ok {
+			continue
+		}
+		for _, m := range []string{"After", "Before", "Equal"} {
+			if callIs(call, "time", "(Time)."+m) {
+				if unspill(call.Call.Args[0]) == ssa.Value(tVal) {
+					wsRaw = call.Call.Args[1]
+				} else if unspill(call.Call.Args[1]) == ssa.Value(tVal) {
+					wsRaw = call.Call.Args[0]
+				}
+			}
+		}
+	}
+	if wsRaw == nil || originValueIn(wsRaw, grp) != ssa.Value(cw.Params[1]) {
+		oc.Fail(r.pos(tVal.Pos()), "the points' timestamps are not compared with clearWindow's windowStart")
+		return true
+	}
+	// the filtered slice is a series' points and the result is what the series keeps
+	if fl, _, ok := loadOfField(del.Call.Args[0]); !ok || fl != "Data" {
+		oc.Fail(r.pos(del.Pos()), "the filter runs over %s, not over a series' points", describe(del.Call.Args[0], 0))
+		return true
+	}
+	kept := false
+	for _, ref := range *del.Referrers() {
+		if st, ok := ref.(*ssa.Store); ok && st.Val == ssa.Value(del) {
+			if fl, _, ok := fieldNameOf(st.Addr); ok && fl == "Data" {
+				kept = true
+			}
+		}
+	}
+	if !kept {
+		oc.Fail(r.pos(del.Pos()), "the filtered points are not stored back into the series")
+		return true
+	}
+	bad := false
+	retainedAtStart := false
+	for _, c := range []struct {
+		t    int64
+		want bool
+		desc string
+	}{{5, false, "t < windowStart"}, {10, true, "t == windowStart"}, {15, true, "t > windowStart"}} {
+		hook := timeOrderHook(map[ssa.Value]int64{tVal: c.t, wsRaw: 10, unspill(wsRaw): 10})
+		w := &feWalker{Fn: pred, Hook: hook}
+		got := map[bool]bool{}
+		undecided := false
+		for _, e := range w.Run() {
+			if len(e.Results) != 1 || !e.Results[0].Known {
+				undecided = true
+				continue
+			}
+			got[!constant.BoolVal(e.Results[0].C)] = true
+		}
+		if undecided || len(got) != 1 {
+			bad = true
+			oc.Undecide(r.pos(pred.Pos()), "%s: the predicate's result is not determined by the ordering", c.desc)
+			continue
+		}
+		retained := got[true]
+		if c.t == 10 {
+			retainedAtStart = retained
+		}
+		if retained != c.want {
+			bad = true
+			oc.Fail(r.pos(pred.Pos()), "%s: point retained=%v, expected %v", c.desc, retained, c.want)
+		}
+	}
+	if !bad && retainedAtStart != admittedAtStart {
+		bad = true
+		oc.Fail(r.pos(cw.Pos()), "sibling disagreement at the lower window edge: fillWindow admits=%v, clearWindow retains=%v – whether the sample counts at T would depend on earlier steps", admittedAtStart, retainedAtStart)
+	}
+	hasDelete := false
+	allInstrs(cw, func(in ssa.Instruction) {
+		if c, ok := in.(*ssa.Call); ok {
+			if bi, ok := c.Call.Value.(*ssa.Builtin); ok && bi.Name() == "delete" {
+				hasDelete = true
+			}
+		}
+	})
+	if !hasDelete {
+		bad = true
+		oc.Fail(r.pos(cw.Pos()), "series whose window became empty are not deleted: they would be reported with no samples")
+	}
+	if !bad {
+		oc.OK("slices.DeleteFunc(points, t < windowStart): retain iff t >= windowStart, agrees with fillWindow at the edge; empty series deleted").At(r.pos(cw.Pos()))
+	}
+	return true
+}
+
 func ruleRangeWindow(r *Run) {
 	p := r.P
 	mp := modPath + "/" + metricPkg
@@ -301,8 +444,14 @@ func ruleRangeWindow(r *Run) {
 	ob := r.Ob("PV-ORDER", "logqlmetric.(*rangeAggIterator).fillWindow look-ahead", "eviction runs before admission, and a sample held back for a later window is re-examined before anything new is read")
 	{
 		bad := false
-		var clearCall, nextCall ssa.CallInstruction
-		fwGrp := funcGroup(fw)
+		var clearCall, nextCall, fillCall ssa.CallInstruction
+		// eviction may be triggered by the admission routine or by its caller (Next)
+		root := nx
+		fwGrp := funcGroup(nx)
+		inFw := map[*ssa.Function]bool{}
+		for _, g := range funcGroup(fw) {
+			inFw[g] = true
+		}
 		for _, gf := range fwGrp {
 			if gf == cw {
 				continue
@@ -311,20 +460,23 @@ func ruleRangeWindow(r *Run) {
 				if callIs(c, mp, "(*rangeAggIterator).clearWindow") {
 					clearCall = c
 				}
-				if call, ok := c.(*ssa.Call); ok && invokeIs(call, "Next") {
+				if staticCallee(c) == fw {
+					fillCall = c
+				}
+				if call, ok := c.(*ssa.Call); ok && invokeIs(call, "Next") && inFw[gf] {
 					nextCall = call
 				}
 			}
 		}
-		if clearCall == nil || nextCall == nil {
+		if clearCall == nil || nextCall == nil || fillCall == nil {
 			bad = true
-			ob.Fail(r.pos(fw.Pos()), "clearWindow call=%v iterator Next call=%v", clearCall != nil, nextCall != nil)
+			ob.Fail(r.pos(fw.Pos()), "clearWindow call=%v iterator Next call=%v fillWindow call=%v", clearCall != nil, nextCall != nil, fillCall != nil)
 		} else {
-			if !runsBefore(clearCall, nextCall, fw, fwGrp) {
+			if !runsBefore(clearCall, nextCall, root, fwGrp) {
 				bad = true
 				ob.Fail(r.pos(nextCall.Pos()), "samples are read before the window was cleared")
 			}
-			if originValueIn(clearCall.Common().Args[1], fwGrp) != ssa.Value(fw.Params[1]) {
+			if originValueIn(clearCall.Common().Args[1], fwGrp) != originValueIn(fillCall.Common().Args[1], fwGrp) {
 				bad = true
 				ob.Fail(r.pos(clearCall.Pos()), "clearWindow is given %s, not windowStart", describe(clearCall.Common().Args[1], 0))
 			}
@@ -340,7 +492,7 @@ func ruleRangeWindow(r *Run) {
 				ob.Fail(r.pos(nextCall.Pos()), "a new sample is read although one is still held back (buffered)")
 			}
 			// Next reads into i.entry, and e := i.entry is what is examined
-			if f, base, ok := fieldNameOf(nextCall.Common().Args[0]); !ok || f != "entry" || originValueIn(base, fwGrp) != ssa.Value(fw.Params[0]) {
+			if f, base, ok := fieldNameOf(nextCall.Common().Args[0]); !ok || f != "entry" || originValueIn(base, fwGrp) != ssa.Value(nx.Params[0]) {
 				bad = true
 				ob.Fail(r.pos(nextCall.Pos()), "the iterator reads into %s, not i.entry", describe(nextCall.Common().Args[0], 0))
 			}
@@ -412,6 +564,8 @@ func ruleRangeWindow(r *Run) {
 			}
 		}
 		switch {
+		case (tVal == nil || inner == nil) && deleteFuncRetention(r, oc, cw, admittedAtStart):
+			// decided on the library-filter form
 		case tVal == nil || inner == nil:
 			oc.Fail(r.pos(cw.Pos()), "no loop examining every point's timestamp (point timestamp=%v, loop over the points=%v): retention must be decided point by point", tVal != nil, inner != nil)
 		case !wsOK:
